@@ -307,7 +307,7 @@ func c23Gen(t *rapid.T) c23Case {
 	case 2:
 		e = rapid.Int64Range(-3, 3).Draw(t, "x")
 	default:
-		e = rapid.Int64Range(-(hwin - 1), hwin-1).Draw(t, "x")
+		e = rapid.Int64Range(-(hwin-1), hwin-1).Draw(t, "x")
 	}
 	// keep the receiver's largest received number inside [-1, 2^62-1]
 	if c.PN-e-1 < -1 {
@@ -325,9 +325,10 @@ func TestVP_C23(t *testing.T) {
 }
 
 // TestVP_C23_grid: complete grid of
-//   sender:   pn anchors x d in (1..6, every length threshold +-6, 2^31-6..2^31-1,
-//             "nothing acked") x L in {A, A+1, A+2, middle, pn-3, pn-2, pn-1}
-//   explicit: pn anchors x n in 1..4 x e in {+-(hwin-1..hwin-4), -3..3, +-hwin/2}
+//
+//	sender:   pn anchors x d in (1..6, every length threshold +-6, 2^31-6..2^31-1,
+//	          "nothing acked") x L in {A, A+1, A+2, middle, pn-3, pn-2, pn-1}
+//	explicit: pn anchors x n in 1..4 x e in {+-(hwin-1..hwin-4), -3..3, +-hwin/2}
 func TestVP_C23_grid(t *testing.T) {
 	vp.RunEnum(t, "C23", "grid", false, func(e *vp.Enum) {
 		var anchors []int64
